@@ -111,7 +111,7 @@ theorem createHeader_lic {c : HdrCfg} {info : Extracted} {header h : Text}
     have hg := (createNewHeader_ok hok).2
     unfold guardOk at hg
     simp only [Bool.and_eq_true] at hg
-    have h2 := sameSet_iff.mp hg.2 (c.normLic x)
+    have h2 := sameSet_iff.mp hg.2.1.2 (c.normLic x)
     apply h2.mp
     cases c.merge <;> exact List.mem_map_of_mem hx'
   · unfold createHeader at hok
@@ -127,7 +127,7 @@ theorem createHeader_lic {c : HdrCfg} {info : Extracted} {header h : Text}
       have hg := (createNewHeader_ok hok').2
       unfold guardOk at hg
       simp only [Bool.and_eq_true] at hg
-      have h2 := sameSet_iff.mp hg.2
+      have h2 := sameSet_iff.mp hg.2.1.2
       rw [← h2 (c.normLic x)]
       simp only [List.mem_map, mem_dedup, List.mem_append]
       exact ⟨c.normLic x, ⟨x, hx.symm, rfl⟩, hnorm x⟩
@@ -146,7 +146,7 @@ theorem createHeader_merged {c : HdrCfg} {info : Extracted} {header h : Text} (h
     have hg := (createNewHeader_ok hok).2
     unfold guardOk at hg
     simp only [Bool.and_eq_true] at hg
-    exact sameSet_iff.mp hg.1 x
+    exact sameSet_iff.mp hg.2.1.1 x
   · unfold createHeader at hok
     have he' : header.isEmpty = false := by cases header <;> simp_all
     simp only [he', Bool.false_eq_true, if_false] at hok ⊢
@@ -159,7 +159,7 @@ theorem createHeader_merged {c : HdrCfg} {info : Extracted} {header h : Text} (h
       have hg := (createNewHeader_ok hok').2
       unfold guardOk at hg
       simp only [Bool.and_eq_true] at hg
-      exact sameSet_iff.mp hg.1 x
+      exact sameSet_iff.mp hg.2.1.1 x
     · simp only [hp, Bool.not_false, if_true] at hok
       cases hok
 
